@@ -289,9 +289,9 @@ func valueFor(r *Rng, g *GSchema, depth int) any {
 				m[k] = valueFor(r, g.Props[k], depth-1)
 			}
 		}
-		for k, p := range g.Props {
+		for _, k := range sortedKeys(g.Props) {
 			if r.Chance(60) {
-				m[k] = valueFor(r, p, depth-1)
+				m[k] = valueFor(r, g.Props[k], depth-1)
 			}
 		}
 		if r.Chance(30) {
@@ -358,4 +358,13 @@ var formatShaped = map[string][]string{
 	"byte":      {"Zm9v", "Zm9vYg==", "Zm9vYmE=", "=Zm9", "Zm9v===="},
 	"email":     {"a@b.co", "x.y@z", "q@q@q", "no-at"},
 	"uuid":      {"123e4567-e89b-12d3-a456-426614174000", "00000000-0000-0000-0000-000000000000", "123e4567-e89b-62d3-a456-426614174000"},
+}
+
+func sortedKeys[V any](m map[string]V) []string {
+	keys := make([]string, 0, len(m))
+	for k := range m {
+		keys = append(keys, k)
+	}
+	sortStrings(keys)
+	return keys
 }
